@@ -492,3 +492,72 @@ def subspace_boundary_spheres(tier, rng, rep):
         rep.case(key=(t,), nontrivial=kdim >= 3, sample=inp if t == 1 else None)
         if len(rep.failures) >= 3:
             return
+
+
+@bounded(P, "segments_after_shared_histories", functions=[H + "Segment.circle_parameters", H + "Subspace.sphere_parameters", H + "Segment._compute_aux_data", "geometry_tools/projective.py:ProjectiveObject.set",
+                                                           "geometry_tools/projective.py:ProjectiveObject.__setitem__", "geometry_tools/projective.py:ProjectiveObject.flatten_to_unit"],
+         note="the statement for every segment AS IT STANDS after histories involving other objects: a copy of it was item-assigned, a flattened view of it was item-assigned, the caller "
+              "re-used the array it was built from; the reported circle / sphere passes through the segment's current endpoints and its ideal endpoints lie on the Klein line through them")
+def segments_after_shared_histories(tier, rng, rep):
+    N = 60 if tier == 'thorough' else 15
+    rep.rule = "composites of 3 segments, n = 2, 3, 4; histories: copy then set item on the copy; flatten then set item on the flattened object; caller overwrites its own array after construction; both conformal models"
+    rep.bound = f"{N} rounds x 3 histories x 2 models"
+
+    def seg_msg(S, model):
+        p = np.asarray(S.proj_data, dtype=float)
+        kl = p[..., 1:] / p[..., :1]
+        if np.any(np.sum(kl * kl, axis=-1) >= 1):
+            return None
+        ide = np.asarray(S.ideal_endpoint_coords("klein"), dtype=float)
+        for idx in np.ndindex(*S.shape):
+            a, b = kl[idx]
+            for e in ide[idx]:
+                if abs(e @ e - 1) > 1e-6:
+                    return f"segment {idx}: an ideal endpoint is not on the unit sphere"
+                if np.linalg.matrix_rank(np.stack([b - a, e - a]), tol=1e-6) > 1:
+                    return f"segment {idx}: an ideal endpoint is not on the Klein line through the current endpoints"
+        with np.errstate(all='ignore'):
+            c, r = S.sphere_parameters(model=model)
+        c, r = np.asarray(c, dtype=float), np.asarray(r, dtype=float)
+        conv = (lambda q: spec.k2p(q)) if model == "poincare" else (lambda q: spec.p2h(spec.k2p(q)))
+        e_ = conv(kl)
+        for idx in np.ndindex(*S.shape):
+            if not (np.all(np.isfinite(c[idx])) and np.isfinite(r[idx]) and r[idx] < 1e3):
+                continue
+            for j in (0, 1):
+                if abs(np.linalg.norm(e_[idx][j] - c[idx]) - r[idx]) > 1e-6 * (1 + r[idx]) ** 2:
+                    return f"segment {idx}: the reported sphere misses endpoint {j} (|p - c| = {np.linalg.norm(e_[idx][j] - c[idx])}, r = {r[idx]})"
+        return None
+    for t in range(N):
+        n = 2 + t % 3
+        def kl(shape):
+            v = rng.normal(size=shape + (2, n))
+            return v / np.linalg.norm(v, axis=-1, keepdims=True) * rng.uniform(0.1, 0.9, size=shape + (2, 1))
+        base, other = spec.k2proj(kl((3,))), spec.k2proj(kl(()))
+        for hist in ("copy_then_setitem", "flatten_then_setitem", "caller_reuses_its_array"):
+            for model in ("poincare", "halfspace"):
+                inp = {"n": n, "history": hist, "model": model, "segments": base.tolist(), "assigned": other.tolist()}
+
+                def body():
+                    buf = base.copy()
+                    S = h.Segment(h.Point(buf)) if hist != "caller_reuses_its_array" else h.Segment(buf)
+                    if hist == "copy_then_setitem":
+                        Cp = h.Segment(S)
+                        Cp[1] = h.Segment(h.Point(other.copy()))
+                        objs = {"original": S, "copy": Cp}
+                    elif hist == "flatten_then_setitem":
+                        Fl = S.flatten_to_unit()
+                        Fl[0] = h.Segment(h.Point(other.copy()))
+                        objs = {"original": S, "flattened": Fl}
+                    else:
+                        buf[1] = other
+                        buf[0, 0, 1:] *= 0.5
+                        objs = {"segment": S}
+                    for nm, o in objs.items():
+                        msg = seg_msg(o, model)
+                        if msg:
+                            rep.fail("circle_describes_the_segment_as_it_stands", f"{nm} after {hist}: {msg}", inp); return
+                rep.attempt("sphere_runs", inp, body)
+                rep.case(key=(t, hist, model), nontrivial=True, sample=inp if (t, hist, model) == (0, "copy_then_setitem", "poincare") else None)
+                if len(rep.failures) >= 3:
+                    return
